@@ -1,4 +1,5 @@
 """Verification drivers for the executor slices (harness code compiled by the same front end)."""
+from loky.process_executor import BrokenProcessPool, ShutdownExecutorError  # noqa: F401 (real classes at replay time)
 
 
 def manager_dispatch(mt):
@@ -24,8 +25,14 @@ def manager_result_message(mt, msg):
 
 
 def user_submit(ex, obs):
-    f = ex.submit(obs.task())
-    obs.submitted(f)
+    try:
+        f = ex.submit(obs.task())
+    except ShutdownExecutorError:
+        obs.rejected()
+    except BrokenProcessPool:
+        obs.rejected()
+    else:
+        obs.submitted(f)
 
 
 def user_shutdown_nowait(ex):
@@ -35,6 +42,8 @@ def user_shutdown_nowait(ex):
 def manager_wait_once(mt, obs):
     item, broken, bpe = mt.wait_result_broken_or_wakeup()
     obs.waited(broken)
+    if mt.is_shutting_down():
+        obs.saw_shutdown()
 
 
 def manager_terminate(mt, obs):
